@@ -3,7 +3,7 @@
 import json, os, re, sys
 for d in sys.argv[1:]:
     d = d.rstrip("/")
-    pid = os.path.basename(d).split("-")[0]
+    pid = re.match(r"C\d+", os.path.basename(d)).group(0)
     readme = open(os.path.join(d, "README.md")).read() if os.path.exists(os.path.join(d, "README.md")) else ""
     conf = open(os.path.join(d, "confirm.log")).read() if os.path.exists(os.path.join(d, "confirm.log")) else ""
     det = open(os.path.join(d, "detect.log")).read() if os.path.exists(os.path.join(d, "detect.log")) else ""
